@@ -1,5 +1,5 @@
 From ZK Require Import Model.Field Model.Pedersen Model.PS Model.Schnorr Model.Range Model.Abacus Model.Amount
-  Model.Customer Model.Merchant Model.Protocol
+  Model.Customer Model.Merchant Model.Keygen Model.Protocol Proofs.KeygenProofs
   Proofs.FieldFacts Proofs.PSProofs Proofs.SchnorrProofs Proofs.RangeProofs Proofs.EstablishProofs Proofs.PayProofs
   Proofs.AmountProofs Proofs.MerchantProofs Proofs.CustomerProofs.
 Local Open Scope fld_scope.
@@ -203,5 +203,28 @@ Proof. intros Hm Hl Hu1 Hu2 Rc Rm Hf Hrho.
   exists (randomize rho cs), s. split; [reflexivity|]. unfold check_close.
   split; [now apply (randomize_nonzero_verifies K)|]. split; [exact Hcid|]. split; [exact Hlq|].
   destruct (ledger_run_invariant (map (@at_amount K) ats) (cb, mb)) as (I & _); cbn [fst snd] in *; try lia. Qed.
+
+(** ** a generated merchant configuration is fit for honest runs: for every choice of streams in which the generators find
+    enough non-identity / non-zero draws, [merchant::Config::new] yields a configuration satisfying [mconfig_ok] - so
+    [channel_lifecycle] applies to it (C19 feeds C04) *)
+Theorem generated_config_ok g1s scalars g2s rev_draws rg1s rscalars rg2s bases m :
+  merchant_config_new g1s scalars g2s rev_draws rg1s rscalars rg2s bases = Some m ->
+  mconfig_ok m /\ m_hr m <> f0 /\ m_gr m <> f0 /\ length (pk_y1s (m_pk m)) = 5%nat /\ length (pk_y2s (rp_pk (m_rp m))) = 1%nat.
+Proof. unfold merchant_config_new.
+  destruct (keygen_stream 5 g1s scalars g2s) as [[sk pk]|] eqn:E1; [|discriminate].
+  destruct (pedersen_new_stream 1 rev_draws) as [[hr [|gr [|? ?]]]|] eqn:E2; try discriminate.
+  destruct (keygen_stream 1 rg1s rscalars rg2s) as [[rsk rpk]|] eqn:E3; [|discriminate].
+  destruct (take_nonzero 128 bases) as [[hs rest]|] eqn:E4; [|discriminate].
+  intros [= <-]. cbn [m_sk m_pk m_hr m_gr m_rp].
+  destruct (keygen_wf K 5 g1s scalars g2s sk pk E1) as (L1 & _ & _ & Hk & Hg & _).
+  destruct (keygen_wf K 1 rg1s rscalars rg2s rsk rpk E3) as (L3 & _ & _ & Hrk & _ & _).
+  destruct (take_nonzero_spec K 128 bases hs rest E4) as [L4 F4].
+  destruct (range_params_new_valid K rsk rpk hs Hrk F4) as [V LV].
+  destruct (pedersen_new_wf K 1 rev_draws hr [gr] E2) as [_ W]. unfold params_wf in W. cbn [forallb] in W.
+  rewrite !andb_true_iff in W. destruct W as [W1 [W2 _]]. apply (fneqb_true K) in W1, W2.
+  split; [|split; [exact W1|split; [exact W2|split]]].
+  - unfold mconfig_ok; cbn [m_sk m_pk m_rp]. split; [exact Hk|]. split; [exact Hg|]. split; [exact V|]. rewrite LV. exact L4.
+  - destruct Hk as (_ & _ & _ & Hy1 & _). rewrite Hy1, map_length. exact L1.
+  - cbn [range_params_new rp_pk]. destruct Hrk as (_ & _ & Hy2 & _ & _). rewrite Hy2, map_length. exact L3. Qed.
 
 End P.
